@@ -115,7 +115,7 @@ def run_family(facts, fam, tier):
         ctx = A.Cat([S, tail])      # literal at end of input or before a delimiter
         for ename in names[:names.index(tok)]:
             t1 = time.time()
-            nodes = {"CTX": ctx, "E": A.Cat([rule[ename], A.anystar()])}
+            nodes = {"CTX": ctx, "E": A.prefix_of(rule[ename])}
             excl = []
             if kind == "Identifier":
                 # the reserved words themselves are not identifiers (they are the keyword tokens)
